@@ -29,6 +29,8 @@ func scenarios(tier string) []sched.Scenario {
 	cfg := vsched.Config{MaxSteps: 400000, Filter: coarse, OnPoint: oxc.PointHook, MaxTime: int64(10 * time.Minute)}
 	mk := func() []oxc.Oracle { return []oxc.Oracle{&oxc.LinOracle{}} }
 	specs := []oxc.ScenarioSpec{
+		{Name: "failed-become-leader", Fault: "failed-become-leader", Clients: 0, PerCli: 0, SyncData: true},
+		{Name: "rolling-isolation", Fault: "rolling-isolation", Clients: 0, PerCli: 0, SyncData: true},
 		{Name: "leader-crash", Fault: "leader-crash", Clients: 2, PerCli: 2, SyncData: true, Reads: true, SameKeys: true},
 		{Name: "spurious-failover", Fault: "spurious-failover", Clients: 2, PerCli: 2, SyncData: true, Reads: true, SameKeys: true},
 		{Name: "swap", Fault: "swap", Clients: 2, PerCli: 2, SyncData: true, Reads: true, SameKeys: true},
@@ -60,7 +62,7 @@ func main() {
 			}
 			return 110 * time.Second
 		},
-		Rule: "every schedule with at most max_dev non-default choices at coarse points (RPC delivery, stream/channel operations, selects, timers) of a real 3(+1)-node cluster with 2 concurrent client writers and one fault (leader crash, crash+restart, spurious failover, node swap of a follower / of the leader, coordinator crash mid-election); client histories (invoke/return stamped with the scheduler step) are checked for per-key linearizability with porcupine; no read may return a value that is not in the final committed log",
+		Rule:   "every schedule with at most max_dev non-default choices at coarse points (RPC delivery, stream/channel operations, selects, timers) of a real 3(+1)-node cluster with 2 concurrent client writers and one fault (leader crash, crash+restart, spurious failover, node swap of a follower / of the leader, coordinator crash mid-election); client histories (invoke/return stamped with the scheduler step) are checked for per-key linearizability with porcupine; no read may return a value that is not in the final committed log",
 		Assume: []string{"sequentially consistent memory", "in-process transports replace gRPC", "a crashed node keeps its disk: Pebble loses what it had not synced, the WAL keeps what was appended", "coarse granularity; virtual time"}}
 	os.Exit(sched.Main(su, *replay))
 }
